@@ -1,12 +1,14 @@
 import LunaVerif.Core.Proto
 import LunaVerif.Model.Phy.FsCodec
 import LunaVerif.Model.Phy.FsTx
+import LunaVerif.Model.Phy.FsRx
 open LunaVerif LunaVerif.Proto LunaVerif.FsCodec
 
 structure DrvState where
   sub   : Nat
   phase : Nat
   tx    : FsTx.St
+  rx    : FsRx.St := {}
 
 /-- config line: `# sub [phase]` where sub = 1: `encode` (row = the bytes of one packet; output = `n sym_1 … sym_n`,
 symbols 0 = SE0, 1 = J, 2 = K, one per bit time);
@@ -15,10 +17,14 @@ violation, 2 = malformed);
 sub = 3: `glue` (row = `op_mode tx_valid tx_data[0] term_select dp_pulldown dm_pulldown txOe txP txN`;
 output = `d_p.o d_n.o oe pullup.o pulldown.o`);
 sub = 4: the cycle-level transmit path `FsTx.step phase` (row = one usb_io cycle: `tx_valid tx_data`;
-output = `tx_ready d_p.o d_n.o oe fit_dat fit_oe`). -/
+output = `tx_ready d_p.o d_n.o oe fit_dat fit_oe`);
+sub = 5: the cycle-level receive path `FsRx.step` (row = one usb_io cycle: `i_usbp i_usbn`; output = the internals of
+the real RxPipeline: `line_state_valid dj dk se0 se1 | nrzi o_valid o_data o_se0 | detect o_pkt_start o_pkt_active
+o_pkt_end | bitstuff o_data o_stall o_error | shifter o_put o_data | payload_fifo w_en w_data | flags_fifo w_en w_data |
+o_receive_error`). -/
 def main : IO Unit :=
   runDriver (σ := DrvState)
-    (fun cfg => ⟨fld cfg 0, fld cfg 1, {}⟩)
+    (fun cfg => ⟨fld cfg 0, fld cfg 1, {}, {}⟩)
     (fun st r =>
       if st.sub == 1 then
         let w := encode r
@@ -32,6 +38,19 @@ def main : IO Unit :=
         let o := glue ⟨fld r 0, n2b (fld r 1), n2b (fld r 2), n2b (fld r 3), n2b (fld r 4), n2b (fld r 5),
                        n2b (fld r 6), n2b (fld r 7), n2b (fld r 8)⟩
         (st, [b2n o.dpO, b2n o.dnO, b2n o.oe, b2n o.pullup, b2n o.pulldown])
+      else if st.sub == 5 then
+        let s := st.rx
+        let (s', o) := FsRx.step s ⟨n2b (fld r 0), n2b (fld r 1)⟩
+        let (v, d, z) := (s.f.oValid, s.f.oData, s.f.oSe0)
+        ({ st with rx := s' },
+         [b2n s.f.lsValid, b2n s.f.lsDj, b2n s.f.lsDk, b2n s.f.lsSe0, b2n s.f.lsSe1,
+          b2n v, b2n d, b2n z,
+          b2n o.pktStart, b2n (s.b.pktActive v z), b2n o.pktEnd,
+          b2n s.b.bsData, b2n s.b.bsStall, b2n s.b.bsError,
+          b2n o.put, s.b.shData,
+          b2n o.put, o.payData,
+          b2n (o.pktStart || o.pktEnd), 2 * b2n o.pktStart + b2n o.pktEnd,
+          b2n o.rxErr])
       else
         let (s', o) := FsTx.step st.phase st.tx ⟨n2b (fld r 0), fld r 1⟩
         ({ st with tx := s' },
